@@ -323,7 +323,7 @@ func c03Explore(r *engine.Run, quick bool, visit func(v *fsVisit)) {
 	if quick {
 		strs = append(c03Strings(c03Tokens, 1, 3), c03Strings(c03Sub6, 4, 4)...)
 	} else {
-		strs = append(c03Strings(c03Tokens, 1, 4), c03Strings(c03Sub12, 5, 5)...)
+		strs = append(c03Strings(c03Tokens, 1, 4), c03Strings(c03Sub6, 5, 5)...)
 	}
 	starts := c03StartTrees()
 	r.Extra["hostile_strings"] = len(strs)
@@ -381,7 +381,7 @@ func c03Explore(r *engine.Run, quick bool, visit func(v *fsVisit)) {
 func init() {
 	register("C03", func(r *engine.Run) {
 		quick := !thorough(r)
-		r.Rule = "every string of 1..L tokens over 18 traversal tokens (L=3 full + L=4 on 6 tokens quick; L=4 full + L=5 on 12 tokens thorough) used as URL.Path verbatim, as raw request-target (when net/http parses it), and as Destination header (bare, http://h-prefixed, //h-prefixed) x every method x 3 start trees (empty, tree with look-alike encoded names, tree produced by a real MKCOL/PUT/MOVE history); non-trivial = the string contains a traversal feature (dot-dot, percent-encoding, backslash, NUL, double slash, URL metacharacter, relative); distinct by (start tree, string, request form)"
+		r.Rule = "every string of 1..L tokens over 18 traversal tokens (L=3 full + L=4 on 6 tokens quick; L=4 full + L=5 on 6 tokens thorough) used as URL.Path verbatim, as raw request-target (when net/http parses it), and as Destination header (bare, http://h-prefixed, //h-prefixed) x every method x 3 start trees (empty, tree with look-alike encoded names, tree produced by a real MKCOL/PUT/MOVE history); non-trivial = the string contains a traversal feature (dot-dot, percent-encoding, backslash, NUL, double slash, URL metacharacter, relative); distinct by (start tree, string, request form)"
 		r.Explanation = "explicit-state exploration over hostile paths with a model-free oracle: a byte-exact snapshot (content, entry list, modes, mtimes) of everything in the sandbox outside the served directory must be unchanged after every request, no canary token may appear in a response, every multistatus href must clean to a served resource of the same kind and be addressable again, and unmappable paths must be refused 4xx"
 		r.Assumptions = []string{"the mapping path -> file name is stateless, so three start trees suffice (stated assumption)", "symlinks placed inside the served directory are outside the statement"}
 		defer harness.Cleanup()
